@@ -43,6 +43,29 @@ def net_conformance(ck, name, count, seeds_per, salt, topos=NB.TOPOS):
                        sig_of=lambda t, v: {'topo': t['sc']['topo'], 'flavour': t['sc'].get('flavour', 'sync')})
 
 
+def net_process_leg(ck, name, count, salt):
+    """L3 on REAL worker processes (and mixed process / thread trees): concurrent callers + one stream; what every caller
+    received is validated against the outcome rules of ServletNet (ServletOutcomeTrace)."""
+    from mbt.bind import servletproc as SP
+    rnd = random.Random(ck.seed * 1000003 + salt)
+    items = [{'id': i + 1, 'sc': sc} for i, sc in enumerate(SP.gen_scenarios(rnd, count))]
+    out = ck.run_binder('servletproc', items, nproc=8, per_job=6, timeout=1200, extra={'detsched': False})
+    ck.evaluations += int(out.get('n_exec', 0))
+    for h in out.get('hangs', []):
+        ck.violation({'leg': 'L3', 'name': name, 'kind': 'hang-or-crash', 'where': 'process servlets', 'hang': h.get('hang'),
+                      'item': {'sc': h['sc']}, 'events': h['ev'][-30:]},
+                     sig={'leg': 'L3', 'kind': 'hang' if 'after_s' in (h.get('hang') or {}) else 'crash',
+                          'where': 'process servlets', 'topo': h['sc']['topo']})
+    groups = collections.defaultdict(list)
+    for t in out.get('traces', []):
+        groups[(t['p']['R'], t['p']['topo'], t['p']['failfast'])].append(t)
+    ck.validate_groups(name, 'ServletOutcomeTrace',
+                       [(tlc.cfg_text(spec='TraceSpec', constants=dict(R=R, Topo=topo, FailFast=ff, FreshUid=True, NUids=4),
+                                      constraint='Progress', postcondition='Report', deadlock=False), trs)
+                        for (R, topo, ff), trs in sorted(groups.items())],
+                       sig_of=lambda t, v: {'topo': t['sc']['topo'], 'where': 'process servlets'})
+
+
 def c02(ck, replay=None):
     thorough = ck.tier == 'thorough'
     for topo in ('single', 'seq', 'switch'):
@@ -62,7 +85,10 @@ def c02(ck, replay=None):
                  SRV.core_cfg(3, 2, 'AllMixes', ['NoLostResponse'], ledger_first=False), 'invariant', 'NoLostResponse')
     net_conformance(ck, 'Server over thread servlet trees (single/sequential+batch/ensemble/switch) under detsched',
                     250 if thorough else 60, 8 if thorough else 4, salt=67)
-    ck.assumptions += ['thread servlets (the Worker/Servlet code is the same for process servlets; queues differ)',
+    net_process_leg(ck, 'Server over PROCESS (and mixed) servlet trees: concurrent callers + stream, outcomes vs. ServletNet',
+                    240 if thorough else 32, salt=79)
+    ck.assumptions += ['inside of the tree observed for thread servlets only (detsched); process servlet trees: real processes, '
+                       'sampled OS schedules, outcomes (and stream order) validated',
                        'id re-use is accepted by the trace spec only when nothing inside the servlet tree still carries the id']
     ck.finish_rc = ck.finish(rule='topology x failing sets x routing x service times x schedule seeds; every queue get/put of '
                              'the tree logged; delivered values decoded to provenance records and compared with the model')
@@ -83,5 +109,7 @@ def c04(ck, replay=None):
                     8 if thorough else 4, salt=71, topos=('single', 'seq', 'seq', 'ens', 'ens', 'switch'))
     ck.notes.append('the binder decodes each raised exception: ElemError class, args (request id, failure site); batch failures '
                     'are checked against the recorded batch composition (WDone events); EnsembleError member lists are decoded')
+    net_process_leg(ck, 'failure injection in PROCESS (and mixed) servlet trees: type, args, remote traceback text, batch members',
+                    240 if thorough else 32, salt=83)
     ck.finish_rc = ck.finish(rule='all subsets of failing requests per stage (model) / random failing sets (conformance) x batching x '
                              'ensemble fail_fast on/off x schedule seeds')
